@@ -56,6 +56,15 @@ CHECKS = {
  "C18": ("other", "per-variant interpretation of both conversions with the number/string conversions as recorded cut points + panic reachability",
          "Both conversions map every variant to the same-named variant on a single unconditional path; numbers go through the number crate's From impl only, strings through From/into_string, containers through into_iter/map/collect with recursion into every element, objects rebuilt through the push family; every panic source in crate/sibling-crate code reachable from the four conversion entry points is discharged, allowlisted or a recorded known finding.",
          "NOT decided: numeric equality of converted numbers (json-number converts through text / f64). The unwrap of from_f64 in json-number is a known finding.", "3/C18"),
+ "C16": ("other", "delegation-shape interpretation of every Serializer / KeySerializer / compound serializer / Deserializer method against a probe visitor",
+         "Necessary structural clauses, one abstract step per method: (ser) each Serializer method builds the JSON shape serde_json's data model prescribes (unit/none -> null, bool, integers and floats through the number crate's same-typed conversion with non-finite floats -> null, char/str -> string, bytes -> array of numbers, newtype transparent, unit variant -> its name, other variants -> single-entry object keyed by the variant name); (key) the key serializer turns strings, chars, integers and unit variants into that text and rejects the rest; (compound) elements/entries appended in order; (de) for every shape the serializer produces the matching deserialize_* method drives the (recorded) probe visitor with the right visit_* call and hands out elements/entries in order; (mapkey) integer-like map keys are parsed at the method's own integer type with a string fallback; (enum) string -> unit variant, single-entry object -> variant + payload.",
+         "NOT decided: the round trip for arbitrary user types (quantifies over serde derive output and user impls) and bit-exactness of floats (number crate). serde's data model and derive trusted.", "3/C16"),
+ "C17": ("other", "delegation-shape interpretation of Serialize for Value/Object, the map-serializer handshake, visit_map and ValueVisitor; constants decoded from MIR",
+         "Necessary structural clauses: (ser) Serialize for Value/Object maps each variant to the matching serializer call with items and entries in order and numbers delegated to the number crate; (token) the private arbitrary-precision token is the same string constant in json-syntax's serializer, its map visitor and json-number's Serialize; (handshake) the map serializer switches to number mode exactly on an empty object + token key and yields the number at end; (dedup) the map serializer and both visit_map implementations build objects with Object::insert, so duplicate keys collapse to the first position with the last value; (de) ValueVisitor maps every visit_* to the matching variant and collects sequences in order; Value as a Deserializer is C16.de.",
+         "NOT decided: which number spellings survive (json-number decides the encoding per lexical class; the two failing classes named in the property live in that dependency) and numeric equality after conversion.", "3/C17"),
+ "C19": ("translation_validation", "token-tree rules over macro_rules! json + translation validation of compiled expansions by abstract interpretation + delegation shapes of the From impls",
+         "For every json! invocation of a bounded-exhaustive corpus (all arrays/objects of up to 2 (quick) / 3 (thorough) members over the leaf alphabet {null,true,false,0,-1,1.5,\"a\",[],{}} nested to depth 1 / 2, with and without trailing comma, literal / parenthesised / expression keys, plus seeded random documents up to 5 members and depth 4), compiled against the current tree but never run, the MIR of the expansion interprets to exactly the constructor tree of the written document: same variants, same scalars (integer at i32 / float bits / string text), members in order, none dropped or duplicated, Object::from_vec indexing every position. Independently of the corpus, every arm of the macro definition keeps the accumulator `$($elems,)*`, appends the new element last, passes the rest on unchanged, and the arm order makes keyword/literal/array/object arms win over the expression arms; From<u8..i64|bool|&str|String> for Value hand their argument unchanged to the same-typed conversion.",
+         "rustc's macro expander and MIR construction trusted; NumberBuf::from(integer)/try_from(f64) and SmallString::from(&str) opaque; documents outside the corpus are covered only by the arm rules.", "3/C19"),
 }
 
 NOT_YET = {}
